@@ -417,7 +417,8 @@ def check(run, prog, tier):
            io.file, io.line, "inc_open", what="inc_open joins the include name to an include dir without scanning it for '..'")
 
     # ---- C15-c
-    cvp = byname["check_valid_path"][0]
+    import inline as _inl
+    cvp = _inl.inlined(byname["check_valid_path"][0], 2, 40)
     run.saw(cvp)
     a = StatAwareAnalysis(cvp, {}, protos).run()
     APPLIES = ("apply_master_ob", "safe_apply_master_ob", "apply", "safe_apply")
